@@ -39,6 +39,11 @@ struct jwt_crypto_ops *jwt_ops = &jwt_mbedtls_ops;
 #error No crypto ops providers are enabled
 #endif
 
+#ifdef LIBJWT_VERIF
+void (*jwt_verif_primitive_hook)(const char *site, int alg,
+				 const jwk_item_t *key) = NULL;
+#endif
+
 const char *jwt_get_crypto_ops(void)
 {
 	if (jwt_ops == NULL)
